@@ -695,6 +695,11 @@ class _Builder:
                 continue
             dn = f.get("def")
             line = t.get("line")
+            if dn == "std::iter::Iterator::collect" and len(t["args"]) == 1 and "fused" not in t:
+                if self._desugar_collect(bi, line):
+                    return True
+                t["fused"] = False
+                continue
             if dn == "std::iter::Iterator::count" and len(t["args"]) == 1 and "fused" not in t:
                 if self._desugar_count(bi, line):
                     return True
@@ -947,6 +952,83 @@ class _Builder:
         for b in (test, some_b, none_b):
             self.origin.setdefault(b, "adaptor:slice-iter")
         self.inlined.append(("adaptor:slice-iter", bi))
+        return True
+
+    def _desugar_collect(self, bi, line):
+        """`(a..b).map(f).collect::<Vec<T>>()` / `::<Result<Vec<T>, E>>()` -- a counted loop written as a pipeline --
+        becomes the loop: push each item; for the Result form stop at the first Err and hand it back."""
+        t = self.blocks[bi]["term"]
+        it_op = t["args"][0]
+        it_place = it_op.get("m") or it_op.get("c")
+        if it_place is None or it_place["p"] or t["dest"]["p"]:
+            return False
+        it_ty = self.locals[it_place["l"]]["ty"]
+        if not it_ty.startswith("std::iter::Map<std::ops::Range<"):
+            return False
+        dty = self.locals[t["dest"]["l"]]["ty"] or ""
+        res_form = dty.startswith("std::result::Result<std::vec::Vec<")
+        if not (res_form or dty.startswith("std::vec::Vec<")):
+            return False
+        vec_ty = dty[len("std::result::Result<"):].rsplit(",", 1)[0] if res_form else dty
+        cont, dest = t["t"], t["dest"]
+        P = lambda l, *proj: {"l": l, "p": list(proj)}
+        A = lambda lhs, rv, ty=None: {"k": "assign", "lhs": lhs, "rv": rv, "lty": ty, "line": line, "exp": False, "inl": "adaptor"}
+        U = lambda op: {"k": "use", "a": op}
+        fnrec = lambda d, r=None: {"k": {"ty": "fn", "kind": "fn", "def": d, "def_id": d, "gargs": [], "res": r or d}}
+        l_it = self.new_local(it_ty)
+        l_vec = self.new_local(vec_ty, name=None)
+        l_ref = self.new_local("&mut " + it_ty)
+        l_next = self.new_local("std::option::Option<?>")
+        l_d = self.new_local("isize")
+        l_x = self.new_local("?item")
+        l_vref = self.new_local("&mut " + vec_ty)
+        l_unit = self.new_local("()")
+        mk = self.new_block([], None)
+        head = self.new_block([], None)
+        sw = self.new_block([], None)
+        body = self.new_block([], None)
+        push = self.new_block([], None)
+        done = self.new_block([], None)
+        unreach = self.new_block([], {"k": "unreachable", "line": line})
+        some = {"dc": "Some", "vi": 1}
+        fld = {"f": 0, "name": "0", "adt": "std::option::Option"}
+        call = lambda fn, args, dst, to, inl="adaptor": {"k": "call", "fn": fn, "args": args, "dest": P(dst), "dty": self.locals[dst]["ty"], "t": to,
+                                                        "unwind": None, "exp": False, "line": line, "inl": inl}
+        self.blocks[bi]["stmts"].append(A(P(l_it), U(it_op), it_ty))
+        self.blocks[bi]["term"] = call(fnrec("std::vec::Vec::<T>::new"), [], l_vec, head)
+        self.blocks[head]["stmts"] = [A(P(l_ref), {"k": "ref", "mut": True, "place": P(l_it)})]
+        self.blocks[head]["term"] = call(fnrec("std::iter::Iterator::next", "<%s as std::iter::Iterator>::next" % it_ty), [{"m": P(l_ref)}], l_next, sw, "fuse")
+        self.blocks[sw]["stmts"] = [A(P(l_d), {"k": "discr", "place": P(l_next), "adt": "std::option::Option"})]
+        self.blocks[sw]["term"] = {"k": "switch", "d": {"m": P(l_d)}, "dty": "isize", "targets": [[0, done], [1, body]], "otherwise": unreach, "line": line}
+        self.blocks[body]["stmts"] = [A(P(l_x), U({"m": P(l_next, some, fld)}))]
+        if res_form:
+            l_d2 = self.new_local("isize")
+            l_v = self.new_local("?ok")
+            errb = self.new_block([], None)
+            okb = self.new_block([], None)
+            self.blocks[body]["stmts"].append(A(P(l_d2), {"k": "discr", "place": P(l_x), "adt": "std::result::Result"}))
+            self.blocks[body]["term"] = {"k": "switch", "d": {"m": P(l_d2)}, "dty": "isize", "targets": [[0, okb], [1, errb]], "otherwise": unreach, "line": line}
+            okf = {"f": 0, "name": "0", "adt": "std::result::Result"}
+            self.blocks[okb]["stmts"] = [A(P(l_v), U({"m": P(l_x, {"dc": "Ok", "vi": 0}, okf)})), A(P(l_vref), {"k": "ref", "mut": True, "place": P(l_vec)})]
+            self.blocks[okb]["term"] = call(fnrec("std::vec::Vec::<T, A>::push"), [{"m": P(l_vref)}, {"m": P(l_v)}], l_unit, head)
+            self.blocks[errb]["stmts"] = [A(dest, {"k": "agg", "ak": "adt", "def": "std::result::Result", "variant": "Err", "vi": 1, "field_names": ["0"],
+                                                   "fields": [{"m": P(l_x, {"dc": "Err", "vi": 1}, okf)}]}, dty)]
+            self.blocks[errb]["term"] = {"k": "goto", "t": cont, "line": line}
+            self.blocks[done]["stmts"] = [A(dest, {"k": "agg", "ak": "adt", "def": "std::result::Result", "variant": "Ok", "vi": 0, "field_names": ["0"],
+                                                   "fields": [{"m": P(l_vec)}]}, dty)]
+            extra = (errb, okb)
+        else:
+            self.blocks[body]["stmts"].append(A(P(l_vref), {"k": "ref", "mut": True, "place": P(l_vec)}))
+            self.blocks[body]["term"] = call(fnrec("std::vec::Vec::<T, A>::push"), [{"m": P(l_vref)}, {"m": P(l_x)}], l_unit, head)
+            self.blocks[done]["stmts"] = [A(dest, U({"m": P(l_vec)}), dty)]
+            extra = ()
+        self.blocks[done]["term"] = {"k": "goto", "t": cont, "line": line}
+        for b in (head, sw, body, done) + extra:
+            self.origin.setdefault(b, "adaptor:collect")
+        # unused scaffolding blocks
+        self.blocks[mk]["term"] = {"k": "unreachable", "line": line}
+        self.blocks[push]["term"] = {"k": "unreachable", "line": line}
+        self.inlined.append(("adaptor:collect", bi))
         return True
 
     def _desugar_count(self, bi, line):
